@@ -25,9 +25,12 @@ func c07Spec(rng *rand.Rand, i int) (*SessSpec, string) {
 	if i%24 == 20 || i%24 == 12 {
 		kind = "map-change"
 	}
+	if i%48 == 4 || i%48 == 27 {
+		kind = "observe-silent"
+	}
 	nodes := 1 + rng.Intn(4)
 	repl := rng.Intn(4)
-	if kind == "late-replica" || kind == "lagging" || kind == "uuid-change" || kind == "errors" || kind == "map-change" {
+	if kind == "late-replica" || kind == "lagging" || kind == "uuid-change" || kind == "errors" || kind == "map-change" || kind == "observe-silent" {
 		if nodes < 2 {
 			nodes = 2
 		}
@@ -152,6 +155,15 @@ func c07Spec(rng *rand.Rand, i int) (*SessSpec, string) {
 		sp.API = true
 		sp.Steps = append(sp.Steps, wr(vb, 3), Step{Op: "barrier"}, Step{Op: "metrics"}, Step{Op: "failover", VB: vb, N: 1 + rng.Intn(9)}, Step{Op: "end", VB: vb, St: 2}, Step{Op: "waitreopen", VB: vb, N: 2},
 			Step{Op: "metrics"}, Step{Op: "append", VB: vb, Items: genSnap(rng, o, &ctr)}, wr(vb, 12), Step{Op: "metrics"})
+	case "observe-silent":
+		// one OBSERVE_SEQNO request to a lagging copy is never answered: after the client's deadline (5 s) the copy is still
+		// listed in the cluster map, still lags, and still gates
+		ix := pr[len(pr)-1]
+		for _, j := range pr[:len(pr)-1] {
+			sp.Steps = append(sp.Steps, obs(vb, j, 1000, 0))
+		}
+		sp.Steps = append(sp.Steps, obs(vb, ix, 1, 0), wr(vb, 3), Step{Op: "observefail", VB: vb, N: ix, Sel: "silent-once"},
+			Step{Op: "append", VB: vb, Items: genSnap(rng, o, &ctr)}, Step{Op: "sleep", Ms: 6200}, wr(vb, 4), obs(vb, ix, 1000, 0))
 	case "map-change":
 		// every copy of the old map is far ahead; the new map (same epoch and higher rev, or a higher epoch whose rev restarts lower)
 		// lists one more copy, which lags: events newer than what that copy reports must wait for it
